@@ -11,10 +11,7 @@ from .sym import Lin, Ref, SBytes, Seg, SObj, SStr, STuple, Unknown
 from .symeval import BSlice, CallVal, BoolVal, Evaluator, Read, ReadVal, SCat, State, SView, TRef, Unsupported, parse_type, typed_value
 
 
-class NeedFork(Exception):
-    def __init__(self, node: ast.AST, cond: BoolVal) -> None:
-        self.node = node
-        self.cond = cond
+from .symeval import NeedFork  # noqa: E402  (the evaluator raises it for conditional expressions)
 
 
 class LoopInfo:
